@@ -283,4 +283,28 @@ PROPS = {
         'trusted_base': ['Kani 0.68.0 + CBMC 6.11', 'reference parser in tools/gen_optparse.py'],
         'assumptions': ['Mode::with_extensions only', 'two fixed option tables'],
     },
+    'C10': {
+        'v_units': ['errexit'],
+        'k_units': ['errexit'],
+        'level': 'other',
+        'explanation': (
+            'Kernel only: where the errexit option applies. Verus proves, for runtime stacks of EVERY depth, that '
+            'Env::errexit_is_applicable (yash-env/src/lib.rs, extracted on every run) answers "the option is on and no frame of the '
+            'whole stack is a Condition frame" -- the exempt contexts (conditions of if/while/until, non-final and-or elements, '
+            'negated pipelines) stay exempt however deeply the failing command is nested in them, across groups, functions, traps and '
+            'subshells -- that Env::apply_errexit diverts to Exit(None) exactly when the last exit status is non-zero there, and that '
+            'Env::apply_result / Divert::exit_status move the exit status a divert carries into $? and nothing else. Kani runs the same '
+            'two functions on real Env values (built field by field) for every stack of <= 3 frames over {Loop, Subshell, Condition, '
+            'DotScript, InitFile} with the option and the status symbolic: a structure-independent sibling that still judges the function '
+            'when it is rewritten with iterator adapters the Verus unit cannot take. NOT decided: where the interpreter pushes '
+            'Frame::Condition (and-or lists, negation, loop conditions: async code of yash-semantics), which commands consult '
+            'apply_errexit, and the consequences-of-shell-errors table (special built-in errors, redirection errors, assignment errors, '
+            'expansion errors): all of that is async interpreter code outside both tools.'),
+        'trusted_base': ['Verus 0.2026.09.13 + Z3', 'Kani 0.68.0 + CBMC 6.11', '/verif/tools/vextract.py, /verif/tools/kunit.py'],
+        'assumptions': [
+            'struct Env is reduced to the fields the functions read (exit_status, options, stack) in the Verus unit; OptionSet::get is assumed to answer On iff the option is in the set',
+            'assumed contract of <[T]>::contains (membership under the specified equality); derived PartialEq of Frame and State is structural',
+            'Kani: RandomState::new is stubbed with fixed keys (std asks the OS for random hash keys; no hash table is consulted by the functions under contract)',
+        ],
+    },
 }
